@@ -157,8 +157,8 @@ def main(argv=None):
             crashes.append((d["target"], d["error"]))
         for u in d["unsupported"]:
             undecided.append((d["target"], "unsupported: " + u))
-        reach_ok = d["reach"].get("pre", True) if d["kind"] == "function" else True
-        any_exit = any(v for k, v in d["reach"].items() if k.startswith("exit.") and "?" not in k)
+        reach_ok = (d["reach"].get("pre", True) or d["reach"].get("pre?unknown", False)) if d["kind"] == "function" else True
+        any_exit = any(v for k, v in d["reach"].items() if k.startswith("exit."))
         if not d.get("error") and not d["unsupported"] and (not reach_ok or not any_exit) and not d["cut_paths"]:
             crashes.append((d["target"], f"vacuity guard: no reachable exit (reach={d['reach']})"))
         if not d.get("error") and not d["obligations"]:
